@@ -20,6 +20,7 @@ func init() {
 		rules.PerRowEmission(p, r, "C09-emit")
 		rules.OrientationParity(p, r, "C09-orient")
 		rules.SelectorRenderingLossless(p, r, "C09-sel")
+		rules.SelectorTextSingleAssignment(p, r, "C09-sel-var")
 		rules.CLIFileWriter(p, r, "C09-file")
 		r.Floor("C09-nodrop", 1)
 	})
